@@ -89,7 +89,7 @@ class XSpec:
         self.env = {k: str(v) for k, v in (env or {}).items()}
         self.bounds = bounds or {}
         self.path_timeout = path_timeout or max(20, int(timeout ** 0.5) + 1)
-        self.reach_timeout = reach_timeout or max(30, timeout // 3)
+        self.reach_timeout = reach_timeout or timeout   # the twin stops at its first witness; the budget is only an upper limit
 
 
 _MSG = re.compile(r"^(?P<file>[^:\n]+):(?P<line>\d+): (?P<kind>info|error): (?P<msg>.*)$")
@@ -217,11 +217,14 @@ def run_xspec(spec):
             c.outcome = "error"
             c.detail = "reachability twin raised: " + rr["msg"][:400]
         else:
-            # no witness: the harness never reaches its assertion -> vacuous
-            c.outcome = "error" if rr["status"] in ("confirmed", "noprecondition") else c.outcome
+            # twin confirmed / precondition unmeetable: the harness never reaches a non-trivial case -> vacuous (error).
+            # twin ran out of budget without a witness: non-vacuity is not shown -> the condition is inconclusive,
+            # not an error (and not counted as confirmed)
             c.detail = (c.detail + " | reachability twin: " + rr["status"] + " " + rr["msg"][:200]).strip()
-            if rr["status"] == "unexhausted" and c.outcome == "confirmed":
+            if rr["status"] in ("confirmed", "noprecondition"):
                 c.outcome = "error"
+            elif c.outcome == "confirmed":
+                c.outcome = "unexhausted"
     c.wall_s = time.time() - t0
     return c
 
